@@ -5,6 +5,7 @@ PROP = {
         "lean_targets": ["Sonic.Props.C20"],
         "theorems": [
             "Sonic.Props.C20.C20_addresses_saved_bytes",
+            "Sonic.Props.C20.C20_offsetter_addresses_saved_bytes",
             "Sonic.Props.C20.C20_inv_reachable",
             "Sonic.Props.C20.C20_pop_addresses",
             "Sonic.Props.C20.C20_discard_exact",
@@ -40,27 +41,27 @@ PROP = {
             "0 <= maxBytes <= MaxInt64; indices and lengths stay far below 2^63 (the model adds them without wrap-around)",
             "the documented workflow: every Save is followed by Push (and Discard of that slot if Push rejects it), every Pop by Discard "
             "before the next Push/Pop; a Push between a Pop and its Discard is outside the contract and is not generated",
-            "theorems: packets are non-empty (bytes != [] and Save(n) with n >= 1); empty packets are exercised by the correspondence check only",
+            "sort.Search is modelled by its contract (first index whose predicate holds on the sorted slice); the buffer's capacity is "
+            "not modelled (SavedSlot of a range beyond len(data) is reported as 'out')",
         ],
         "manifest": {
-        "level_text": "Partial. Theorems over a hand-written Lean model that mirrors fenwick_tree.go, slot_offsetter.go, sequenced_slots.go, "
+        "level_text": "Theorems over a hand-written Lean model that mirrors fenwick_tree.go, slot_offsetter.go, sequenced_slots.go, "
                       "slot_sequencer.go and ByteBuffer.Write/Commit/Save/SavedSlot/Discard (OffsetSlot is regenerated from slot.go): for all "
-                      "limits and every interleaving of park (any sequence numbers, duplicates, every non-empty size, limits hit or not) and "
-                      "take (any order, draining or never draining) the model's answers are accepted by a monitor that keeps a map "
-                      "seq -> bytes: the slot Pop returns addresses exactly the bytes saved under that number, Discard removes exactly those "
-                      "bytes and leaves every other packet in place, duplicates and limit errors change nothing, Bytes()/Size()/Saved() equal "
-                      "the parked totals, nothing panics; Fenwick SumUntil/Sum = prefix sums after any Adds, loops terminate. Unbounded "
-                      "induction over the operation list. Outside the theorems (carried by the differential check only): empty packets, the "
-                      "bare-SlotOffsetter stream, sort.Search and buffer capacity, int overflow. Observed limitation (accepted by the monitor, not a "
-                      "violation): the offsetter's index space of maxBytes cells is consumed by discards, so a sequencer that never drains "
-                      "eventually answers every Push with ErrNoSpaceLeftForSlot although Bytes()/Size() are small; the error is reported, the "
-                      "state is unchanged and addressing stays exact; draining to empty resets it.",
+                      "limits and every interleaving of park (any sequence numbers, duplicates, every size including empty packets and clamped "
+                      "Save arguments, limits hit or not) and take (any order, draining or never draining), and likewise for the bare "
+                      "SlotOffsetter (add/off/reset by handle), the model's answers are accepted by a monitor that keeps a map seq -> bytes: "
+                      "the slot Pop/Offset returns addresses exactly the bytes saved under that number whatever was discarded before, Discard "
+                      "removes exactly those bytes and leaves every other packet in place, duplicates and limit errors change nothing, "
+                      "Bytes()/Size()/Saved() equal the parked totals, nothing panics; Fenwick SumUntil/Sum = prefix sums after any Adds and "
+                      "both loops terminate (bit recurrences proved in core Lean). Unbounded induction over the operation list. Modelling "
+                      "assumptions outside the theorems (carried by the differential check): sort.Search by its contract, buffer capacity, no "
+                      "int overflow in index arithmetic, the documented workflow (no Push between a Pop and its Discard). Observed limitation "
+                      "(accepted by the monitor, not a violation): the offsetter's index space of maxBytes cells is consumed by discards, so a "
+                      "sequencer that never drains eventually answers every Push with ErrNoSpaceLeftForSlot although Bytes()/Size() are small; "
+                      "the error is reported, the state is unchanged and addressing stays exact; draining to empty resets it.",
         "design_ref": "5/C20",
         "level_note": "Trusted: Lean kernel; the hand-written model (exercised on every run by the differential trace check against the real "
-                      "ByteBuffer + SlotSequencer/SlotOffsetter, including exhaustive small scopes); go2lean for OffsetSlot. Finding for the "
-                      "lead: in a sequencer that never drains the offsetter's index space (maxBytes cells) is consumed by discards, after "
-                      "which every Push fails with ErrNoSpaceLeftForSlot although Bytes() is small; the monitor permits (does not require) "
-                      "that error.",
+                      "ByteBuffer + SlotSequencer/SlotOffsetter, including exhaustive small scopes); go2lean for OffsetSlot.",
         "technique": "Lean 4 refinement proof over a hand-written model + differential trace correspondence",
     },
 }
